@@ -32,16 +32,27 @@ def check_lines_premises(prog: Program, res: Result) -> None:
     fi = prog.func(f"{PG}:make_line_subs")
     res.touch(fi)
     divs = [n for n in walk_function(fi.node) if isinstance(n, ast.BinOp) and isinstance(n.op, ast.Div) and norm(n.right) == "pafs_stride"]
-    ok = len(divs) == 1 and norm(divs[0].left) == "XY"
+    ok = len(divs) == 1
     res.ob(R, ok, fi.qualname, "peak coordinates / pafs_stride before indexing", "make_line_subs does not divide the interpolated coordinates by pafs_stride exactly once", fi.where)
-    if ok:
-        par = divs[0]
-        chain = norm(astq.enclosing_stmt(par).value) if hasattr(astq, "enclosing_stmt") else ""
-    st = [s for s in walk_function(fi.node) if isinstance(s, ast.Assign) and norm(s.targets[0]) == "XY" and "pafs_stride" in norm(s.value)]
-    res.ob(R, len(st) == 1 and norm(st[0].value).replace(" ", "") == "(XY/pafs_stride).round().int()", fi.qualname, "indices = round(XY / stride)",
-           f"grid indices are `{short(st[0].value, 50) if st else '?'}`", fi.where)
-    swap = [s for s in walk_function(fi.node) if isinstance(s, ast.Assign) and norm(s.targets[0]) == "XY" and norm(s.value) == "XY[:, [1, 0], :]"]
-    res.ob(R, len(swap) == 1, fi.qualname, "(x, y) reordered to (row, col)", "make_line_subs no longer reorders (x, y) to (row, col)", fi.where)
+    # the (x, y) -> (row, col) swap is applied to int(round(XY / stride)): read the chain off the expanded operand of the swap
+    swaps = [n for n in walk_function(fi.node) if isinstance(n, ast.Subscript) and isinstance(n.ctx, ast.Load) and norm(n.slice).replace(" ", "") in ("(:,[1,0],:)", ":,[1,0],:")]
+    res.ob(R, len(swaps) == 1, fi.qualname, "(x, y) reordered to (row, col)", "make_line_subs no longer reorders (x, y) to (row, col)", fi.where)
+    chain = astq.expand_at(fi.node, swaps[0].value, enclosing_stmt(swaps[0])) if len(swaps) == 1 else None
+    okc = False
+    if chain is not None:
+        e = chain
+        conv = False
+        while isinstance(e, ast.Call) and isinstance(e.func, ast.Attribute) and (e.func.attr in ("int", "long") and not e.args
+                                                                                  or e.func.attr in ("to", "type") and len(e.args) == 1 and norm(e.args[0]) in ("torch.int32", "torch.int64", "torch.long", "torch.int")):
+            e, conv = e.func.value, True
+        rounded = None
+        if isinstance(e, ast.Call) and isinstance(e.func, ast.Attribute) and e.func.attr == "round" and not e.args and norm(e.func.value) != "torch":
+            rounded = e.func.value
+        elif isinstance(e, ast.Call) and norm(e.func) == "torch.round" and len(e.args) == 1 and not e.keywords:
+            rounded = e.args[0]
+        okc = conv and isinstance(rounded, ast.BinOp) and isinstance(rounded.op, ast.Div) and norm(rounded.right) == "pafs_stride" \
+            and isinstance(rounded.left, ast.Call) and norm(rounded.left.func).split(".")[-1] in ("concat", "cat", "concatenate")
+    res.ob(R, okc, fi.qualname, "indices = round(XY / stride)", f"grid indices are `{short(chain, 60) if chain is not None else '?'}`, not int(round(concat(X, Y) / pafs_stride))", fi.where)
     clips = {norm(s.targets[0]): norm(s.value) for s in walk_function(fi.node) if isinstance(s, ast.Assign) and isinstance(s.targets[0], ast.Subscript) and "clip" in norm(s.value)}
     ok = clips.get("XY[:, 0]") == "torch.clip(XY[:, 0], min=0, max=height - 1)" and clips.get("XY[:, 1]") == "torch.clip(XY[:, 1], min=0, max=width - 1)"
     hw = [s for s in walk_function(fi.node) if isinstance(s, ast.Assign) and norm(s.value) == "pafs_hw"]
@@ -116,6 +127,49 @@ def check_lines_premises(prog: Program, res: Result) -> None:
                f"PAFScorer.from_config hands `{kw.get(prm, 'nothing / a filtered **kwargs')}` to the constructor field `{prm}` instead of its own argument `{prm}`: "
                "a configured value (e.g. min_line_scores=0.0) can be replaced by the class default", fc.where)
     res.floor(R, 10)
+
+
+def check_edge_length(prog: Program, res: Result) -> None:
+    """The distance penalty of a candidate connection is measured against max_edge_length = ratio * (largest SPATIAL extent
+    of the PAFs) * stride.  score_paf_lines_batch receives the PAFs channels-last, (samples, H, W, C) - the same function hands
+    pafs[sample] to get_paf_lines, which takes its (H, W) from the first two axes - so the extent must be taken over (at
+    least) axes 1 and 2.  An extent that misses the height or the width penalises true long edges of a portrait / landscape
+    frame below min_line_scores and the animal comes back in pieces."""
+    R = "C03-length"
+    fi = prog.func(f"{PG}:score_paf_lines_batch")
+    res.touch(fi)
+    sp = prog.func(f"{PG}:score_paf_lines")
+    calls = [c for c, q in prog.calls_in(fi) if q == sp.qualname]
+    res.ob(R, len(calls) == 1, fi.qualname, "one scoring call per sample", f"{len(calls)} calls of score_paf_lines", fi.where)
+    if len(calls) != 1:
+        return
+    arg = astq.bind_args(sp, calls[0]).get("max_edge_length")
+    pname = fi.pos_params[0] if fi.pos_params else "pafs"
+    e = astq.expand_at(fi.node, arg, enclosing_stmt(calls[0])) if arg is not None else None
+    axes = set()
+    exact = e is not None
+    for n in (ast.walk(e) if e is not None else []):
+        if isinstance(n, ast.Subscript) and isinstance(n.value, ast.Attribute) and n.value.attr == "shape" and norm(n.value.value) == pname:
+            k = astq.const_value(n.slice)
+            if isinstance(k, int):
+                axes.add(k % 4)
+            elif isinstance(n.slice, ast.Slice) and n.slice.step is None:
+                lo = astq.const_value(n.slice.lower) if n.slice.lower is not None else 0
+                hi = astq.const_value(n.slice.upper) if n.slice.upper is not None else 4
+                if isinstance(lo, int) and isinstance(hi, int):
+                    axes |= set(range(lo % 4 if lo < 0 else lo, (hi % 4 if hi < 0 else hi)))
+                else:
+                    exact = False
+            else:
+                exact = False
+        elif isinstance(n, ast.Call) and isinstance(n.func, ast.Attribute) and n.func.attr == "size" and norm(n.func.value) == pname and len(n.args) == 1 \
+                and isinstance(astq.const_value(n.args[0]), int):
+            axes.add(astq.const_value(n.args[0]) % 4)
+    has_max = e is not None and any(isinstance(n, ast.Call) and norm(n.func).split(".")[-1] in ("max", "amax", "maximum") for n in ast.walk(e))
+    ok = exact and has_max and {1, 2} <= axes and "max_edge_length_ratio" in astq.names_in(e) and "pafs_stride" in astq.names_in(e)
+    res.ob(R, ok, fi.qualname, "max_edge_length = ratio * max(spatial extent of the channels-last PAFs) * stride",
+           f"max_edge_length is `{short(e, 80) if e is not None else '?'}`: it reads axes {sorted(axes)} of the (samples, H, W, C) PAFs - the largest extent must cover "
+           "the height and the width (axes 1 and 2)", fi.where)
 
 
 def check_layout(prog: Program, res: Result) -> None:
@@ -234,6 +288,7 @@ def check(prog: Program, res: Result) -> None:
     c02.check_entries(prog, res, ("bottomup",), rule_out="C03-out", rule_own="C03-own", prefix="C03")
     check_lines_premises(prog, res)
     check_layout(prog, res)
+    check_edge_length(prog, res)
     c17.check_use(prog, res, rule="C03-order")
     res.floor("C03-out", 4)
     res.floor("C03-own", 2)
@@ -241,6 +296,7 @@ def check(prog: Program, res: Result) -> None:
     res.borrow(c06.check_rough, "C03-peaks", prog)
     res.borrow(c06.check_refine, "C03-peaks", prog)
     res.borrow(c12.check_split, "C03-peaks", prog)
+    res.borrow(c12.check_no_batch_wide_guard, "C03-frame", prog)   # every frame is corrected by its OWN eff_scale
     from . import _batch
     _batch.check_per_sample_lists(prog, res, "C03-batch", ["sleap_nn.inference.paf_grouping:score_paf_lines_batch", "sleap_nn.inference.paf_grouping:match_candidates_batch", "sleap_nn.inference.paf_grouping:group_instances_batch"], floor=9)
     res.assumptions += ["that grouping returns exactly the labelled animals (numerical PAF integral) is not decided", "channel numbering 2e+c is pinned by the existing tests"]
